@@ -76,6 +76,12 @@ def main():
         except Exception:  # noqa
             pass
     try:
+        from . import probes as _pr
+        if _pr.CALLBACK_ERRORS:
+            ctx.extra["observer_callback_errors_not_propagated"] = list(_pr.CALLBACK_ERRORS)
+    except Exception:  # noqa
+        pass
+    try:
         from . import inject as _inj2
         ctx.extra["environment_variables_looked_up_by_repo_code"] = list(_inj2.EnvTaint.names)
     except Exception:  # noqa
